@@ -59,6 +59,14 @@ let run_boardraw (fields : string list) : string =
   | None -> "boardraw error"
   | Some l -> "boardraw read=" ^ String.concat "," (List.map (fun e -> pn e.M.e_tag ^ "@" ^ pz e.M.e_offset) l)
 
+let export_line (o : (M.n * M.exported) list option) : string =
+  match o with
+  | None -> "export refused"
+  | Some out ->
+    let out = List.sort (fun (a, _) (b, _) -> compare (int_of_n a) (int_of_n b)) out in
+    "export " ^ String.concat "," (List.map (fun (id, e) ->
+        Printf.sprintf "%s:%s:%s:%s" (Fsm_io.pn id) (Fsm_io.pn e.M.ex_payload) (Fsm_io.pn e.M.ex_sig) (Fsm_io.pn e.M.ex_file)) out)
+
 let handle (line : string) : string =
   match split line with
   | "root" :: a :: _ -> run_root a
@@ -168,6 +176,26 @@ let handle (line : string) : string =
     "adapt " ^ String.concat "," (List.map (fun m ->
         (if m.M.am_synthetic then "S" ^ pn m.M.am_sender ^ ">" ^ pn m.M.am_recipient ^ "/" ^ pn m.M.am_round
          else "M" ^ pn m.M.am_tag) ^ "@" ^ pz m.M.am_offset) out)
+  | "export" :: batch :: n :: rest ->
+    (* export <batch> <n> {batch id payload sig file user}* : the entries saved one by one into an empty
+       store of one round, then export_signatures of <batch> (an unknown batch exports nothing) *)
+    let open Fsm_io in
+    let c = { a = Array.of_list rest; i = 0 } in
+    let l = rep (int_of_string n) (fun () ->
+        let b = next_n c in let id = next_n c in let p = next_n c in let sg = next_n c in let f = next_n c in let u = next_n c in
+        { M.rs_file = f; rs_batch = b; rs_msgid = id; rs_payload = p; rs_sig = sg; rs_user = u; rs_round = n_of_int 0 }) in
+    let store = List.fold_left M.add_sig [] l in
+    let b = match M.tget' store (n_of_dec batch) with Some b -> b | None -> [] in
+    export_line (M.export_batch b)
+  | "exportraw" :: n :: rest ->
+    (* exportraw <n> {id k {payload sig file}*}* : a batch as stored, message ids with their entries *)
+    let open Fsm_io in
+    let c = { a = Array.of_list rest; i = 0 } in
+    let b = rep (int_of_string n) (fun () ->
+        let id = next_n c in let k = next_int c in
+        (id, rep k (fun () -> let p = next_n c in let sg = next_n c in let f = next_n c in
+                     { M.rs_file = f; rs_batch = n_of_int 0; rs_msgid = id; rs_payload = p; rs_sig = sg; rs_user = n_of_int 0; rs_round = n_of_int 0 }))) in
+    export_line (M.export_batch b)
   | "filename" :: kind :: round :: id :: batch :: _ ->
     (* filename <kind> <round hex|-> <id hex|-> <batch hex | - (empty) | none> *)
     let hx s = if s = "-" then [] else bytes_of_hex s in
